@@ -44,6 +44,8 @@ def gen(rng, V, depth, pools):
         r = rng.random()
         if r < 0.12:
             xs, x = mag(rng)
+            if rng.random() < 0.2:
+                xs, x = xs + "%", x / 100          # a percentage is a plain number
             return ("lit", xs, x, R.ZERO_DIMS)
         if r < 0.16:
             f = V.rand_factors(rng, nmax=1)
@@ -52,6 +54,17 @@ def gen(rng, V, depth, pools):
         f = V.rand_factors(rng, nmax=rng.choice([1, 1, 2, 3]), pool=pool)
         s, dims = V.factors_si(f)
         xs, x = mag(rng)
+        form = rng.random()
+        if form < 0.08:
+            # a rounding function around the literal: it works on the number as written and keeps the unit (C10), the result is
+            # an operand like any other
+            fn = rng.choice(["round", "floor", "ceil"])
+            return ("lit", "%s(%s %s)" % (fn, xs, G.text(f, rng)), exact.call(fn, [x]) * s, dims)
+        if form < 0.16:
+            # a cast inside the expression: the operand is the same quantity, spelled in another unit of its dimension
+            f2 = V.factors_for_dims(rng, dims)
+            if f2:
+                return ("lit", "(%s %s to %s)" % (xs, G.text(f, rng), G.text(f2, rng)), x * s, dims)
         return ("lit", "%s %s" % (xs, G.text(f, rng)), x * s, dims)
     r = rng.random()
     if rng.random() < 0.03:
